@@ -141,6 +141,92 @@ def prefix_upto(nfa: NFA, n: int) -> NFA:
     return out
 
 
+def longest_prefix_match(nfa: NFA, pattern: str, full: bool = False) -> NFA:
+    """{ m : w in L, m = the (greedy = longest, for the simple patterns supported) prefix of w matched by `pattern` }.
+    Supported patterns: those whose greedy match is the longest match (character classes with repeats, literals)."""
+    import re._parser as sp
+    import re._constants as sc
+
+    tree = sp.parse(pattern)
+    for op, av in tree:
+        if op not in (sc.LITERAL, sc.IN, sc.MAX_REPEAT, sc.ANY, sc.NOT_LITERAL):
+            raise NoLang(f"re.match pattern {pattern!r} is outside the supported subset")
+        if op is sc.MAX_REPEAT and not all(o in (sc.LITERAL, sc.IN, sc.ANY, sc.NOT_LITERAL) for o, _ in av[2]):
+            raise NoLang(f"re.match pattern {pattern!r} is outside the supported subset")
+    base = Lang.from_nfa(nfa)
+    P = Lang.from_regex(pattern)
+    if full:
+        return _lang_to_nfa(base.intersect(P))
+    # product walk: (a, b) reached by u; u is the result iff b accepting and some continuation v from a reaches a base
+    # accept without passing through a P-accepting state (then no longer prefix matches)
+    # co-reachability in the product restricted to non-accepting P states
+    from .relang import NSYM
+
+    good = set()  # (a, b): from here base-accept is reachable by >= 0 symbols, all intermediate/final P states non-accepting
+    states = [(a, b) for a in range(len(base.trans)) for b in range(len(P.trans))]
+    changed = True
+    ok_after = set()  # pairs from which a continuation exists whose every non-empty prefix leaves P non-accepting
+    for a, b in states:
+        if a in base.accept:
+            ok_after.add((a, b, True))
+    # compute cont(a, b): exists v (possibly empty) with a --v--> base accept, and for every non-empty prefix of v the P state is non-accepting
+    cont = {(a, b) for a in range(len(base.trans)) for b in range(len(P.trans)) if a in base.accept}
+    changed = True
+    while changed:
+        changed = False
+        for a in range(len(base.trans)):
+            for b in range(len(P.trans)):
+                if (a, b) in cont:
+                    continue
+                for sym in range(NSYM):
+                    a2, b2 = base.trans[a][sym], P.trans[b][sym]
+                    if b2 not in P.accept and (a2, b2) in cont:
+                        cont.add((a, b))
+                        changed = True
+                        break
+    out = NFA()
+    idx = {}
+
+    def st(a, b):
+        if (a, b) not in idx:
+            idx[(a, b)] = out.new()
+        return idx[(a, b)]
+
+    out.eps(out.start, st(base.start, P.start))
+    work = [(base.start, P.start)]
+    seen = set(work)
+    while work:
+        a, b = work.pop()
+        if b in P.accept and (a, b) in cont:
+            out.accept.add(st(a, b))
+        groups = {}
+        for sym in range(NSYM):
+            groups.setdefault((base.trans[a][sym], P.trans[b][sym]), 0)
+            groups[(base.trans[a][sym], P.trans[b][sym])] |= 1 << sym
+        for (a2, b2), mask in groups.items():
+            out.add(st(a, b), mask, st(a2, b2))
+            if (a2, b2) not in seen:
+                seen.add((a2, b2))
+                work.append((a2, b2))
+    return out
+
+
+def _lang_to_nfa(L: Lang) -> NFA:
+    from .relang import NSYM
+
+    out = NFA()
+    out.trans = [[] for _ in L.trans]
+    out.start = L.start
+    out.accept = set(L.accept)
+    for s_, row in enumerate(L.trans):
+        groups = {}
+        for sym in range(NSYM):
+            groups[row[sym]] = groups.get(row[sym], 0) | (1 << sym)
+        for t, mask in groups.items():
+            out.trans[s_].append((mask, t))
+    return out
+
+
 def string_nfa(I: Interp, v: V) -> NFA:
     """NFA of the possible values of string value v (raises NoLang when the provenance is not modelled)."""
     if isinstance(v, Const) and isinstance(v.value, str):
@@ -177,6 +263,9 @@ def string_nfa(I: Interp, v: V) -> NFA:
             return strip_chars(b, SPACE)
         if meth in ("upper", "lower"):
             return b
+        if meth == "rematch":
+            pat, kind = args[0].value, args[1].value
+            return longest_prefix_match(b, pat, full=(kind == "fullmatch"))
         raise NoLang(f"string operation .{meth}()")
     if hasattr(v, "slice_of"):
         base, lo, hi = v.slice_of
